@@ -576,6 +576,17 @@ class Executor:
     def lookup_const(self, t):
         if t in self.p.consts:
             return self.p.consts[t]
+        # `<T as Trait>::method::promoted[N]`: the promoted constant of a trait impl's method
+        mq = re.fullmatch(r"(<.+>::\w+)::(promoted\[\d+\])", t)
+        if mq and t.startswith("<"):
+            q = split_qualified(mq.group(1))
+            if q:
+                selfty, trait, meth = q
+                cands = self.p.traitimpl.get((_base(selfty.lstrip("&").strip()), _base(trait), meth), [])
+                if len(cands) == 1:
+                    nm = cands[0][0].name + "::" + mq.group(2)
+                    if nm in self.p.consts:
+                        return self.p.consts[nm]
         # generic arguments in the referencing path (`f::<T>::promoted[0]`) are not part of the definition's name
         t = "::".join(s_ for s_ in split_path(t) if not (s_.startswith("<") and s_.endswith(">")))
         if t in self.p.consts:
